@@ -8,6 +8,9 @@ import (
 	"strings"
 	"sync"
 
+	"github.com/MichaelMure/git-bug/repository"
+	"github.com/MichaelMure/git-bug/util/lamport"
+
 	"verif/harness/mon"
 	"verif/harness/world"
 )
@@ -76,6 +79,82 @@ func c05ConcurrentClock(r *mon.Run) {
 				return
 			}
 		}
+	}
+}
+
+// c05ConcurrentWitness: one goroutine witnesses a value ahead of the clock (reading a fetched or merged entity) while
+// others increment it (commits through the same repository). Whatever the interleaving, after Witness(v) has returned
+// the clock is at least v: "dominates everything seen". Runs on the persisted clock of a go-git repository and on the
+// in-memory repository.
+func c05ConcurrentWitness(r *mon.Run) {
+	rounds := r.Pick(4000, 40000)
+	dir := world.ScratchDir("c05-wit-")
+	defer os.RemoveAll(dir)
+	rep, err := world.InitRepo(filepath.Join(dir, "r"), false)
+	if err != nil {
+		r.Inconclusive("concurrent witness: " + err.Error())
+		return
+	}
+	defer func() { _ = rep.Repo.Close() }()
+	type clocked interface {
+		Increment(name string) (lamport.Time, error)
+		Witness(name string, time lamport.Time) error
+		AllClocks() (map[string]lamport.Clock, error)
+	}
+	for _, tgt := range []struct {
+		name string
+		repo clocked
+	}{{"persisted", rep.Repo}, {"in-memory", repository.NewMockRepo()}} {
+		if _, err := tgt.repo.Increment("bugs-edit"); err != nil {
+			r.Inconclusive("concurrent witness: " + err.Error())
+			return
+		}
+		overlaps := 0
+		for round := 0; round < rounds; round++ {
+			clocks, _ := tgt.repo.AllClocks()
+			cur := uint64(clocks["bugs-edit"].Time())
+			want := cur + 50
+			var wg sync.WaitGroup
+			start := make(chan struct{})
+			incs := make([]uint64, 3)
+			for w := range incs {
+				wg.Add(1)
+				go func(w int) {
+					defer wg.Done()
+					<-start
+					if t, err := tgt.repo.Increment("bugs-edit"); err == nil {
+						incs[w] = uint64(t)
+					}
+				}(w)
+			}
+			var werr error
+			wg.Add(1)
+			go func() {
+				defer wg.Done()
+				<-start
+				werr = tgt.repo.Witness("bugs-edit", lamport.Time(want))
+			}()
+			close(start)
+			wg.Wait()
+			clocks, _ = tgt.repo.AllClocks()
+			after := uint64(clocks["bugs-edit"].Time())
+			// an increment that ran before the witness returned a value <= want
+			for _, v := range incs {
+				if v != 0 && v <= want {
+					overlaps++
+					break
+				}
+			}
+			r.Count("concurrent_witness_rounds/"+tgt.name, 1)
+			if werr == nil && after < want {
+				r.Violation("concurrent-witness:clock-below-witnessed-value:"+tgt.name,
+					fmt.Sprintf("round %d (%s clock): Witness(%d) returned without error while increments ran (they obtained %v); the clock then stands at %d, below the witnessed value", round, tgt.name, want, incs, after),
+					map[string]any{"kind": "concurrent-witness", "round": round, "target": tgt.name})
+				break
+			}
+		}
+		r.Case("concurrent-witness/"+tgt.name, true)
+		r.Count("concurrent_witness_rounds_with_an_increment_before_the_witness/"+tgt.name, overlaps)
 	}
 }
 
